@@ -118,14 +118,16 @@ def replay_exact(ctx: core.Ctx, prefix_filter=None) -> None:
 def gen_configs(seed: int, n: int, nx_max: int, families: str = "all") -> list[dict]:
     rng = np.random.default_rng([seed, 101])
     tables_single = ["pvt_gas", "haynesville", "ideal_csv", "synth_z:0.0002", "synth_z:0.0", "synth_alpha:rising",
-                     "synth_alpha:falling", "synth_alpha:kinked", "synth_alpha:steep", "synth_alpha:stepped", "built:0.7,200",
+                     "synth_alpha:falling", "synth_alpha:kinked", "synth_alpha:steep", "synth_alpha:stepped", "shifted:pvt_gas", "built:0.7,200",
                      "built:1.1,120"]
     cfgs = []
     for i in range(n):
         kind = "single" if rng.random() < 0.7 else "ideal"
         tab = str(rng.choice(tables_single))
+        if rng.random() < 0.12:
+            tab = "desc:" + tab
         t = sdrv.table(tab)
-        p = np.asarray(t["pressure"], dtype=float)
+        p = np.sort(np.asarray(t["pressure"], dtype=float))
         lo_p, hi_p = float(p[2]), float(p[-1])
         pi = float(rng.uniform(max(lo_p * 2, 0.3 * hi_p), hi_p))
         ratio_kind = rng.random()
@@ -148,7 +150,7 @@ def gen_configs(seed: int, n: int, nx_max: int, families: str = "all") -> list[d
         elif nx > 100 and ratio > 0.9:
             ratio = float(rng.uniform(0.05, 0.9))
             pf = max(lo_p, ratio * pi)
-        grid = str(rng.choice(["uniform", "quadratic", "geometric", "random", "jumpy", "huge", "drift", "nearuniform", "tiny", "intdays", "f32"]))
+        grid = str(rng.choice(["uniform", "quadratic", "geometric", "random", "jumpy", "huge", "drift", "nearuniform", "tiny", "intdays", "f32", "dupes"]))
         nt = int(rng.integers(3, 120)) if nx > 100 else int(rng.integers(3, 400))
         if ratio >= 0.99:
             nt = min(nt, 150)
@@ -158,10 +160,12 @@ def gen_configs(seed: int, n: int, nx_max: int, families: str = "all") -> list[d
             sched = str(rng.choice(["none", "none", "const", "stepdown", "arbitrary", "updown"]))
         c = {"kind": kind, "table": tab, "nx": nx, "pf": pf, "pi": pi, "grid": grid, "nt": nt, "tend": tend,
              "sched": sched, "seed": int(rng.integers(0, 2**31 - 1))}
+        if rng.random() < 0.12:
+            c["repress"] = (float(rng.uniform(lo_p, 0.9 * pi)), pi if kind == "single" else float(rng.uniform(0.5, 1.5)) * pi)
         if kind == "single" and rng.random() < 0.15:
             others = [t2 for t2 in ("pvt_gas", "ideal_csv", "synth_z:0.0002", "synth_alpha:rising") if t2 != tab]
             t2 = str(rng.choice(others))
-            p2 = np.asarray(sdrv.table(t2)["pressure"], dtype=float)
+            p2 = np.sort(np.asarray(sdrv.table(t2)["pressure"], dtype=float))
             if float(p2[-1]) >= pi and float(p2[1]) <= pf:
                 c["prelude"] = t2
         cfgs.append(c)
@@ -178,7 +182,7 @@ def ladder_configs(quick: bool) -> list[dict]:
     rungs = [(20, 200), (40, 800), (80, 3200)] if quick else [(20, 200), (40, 800), (80, 3200), (160, 12800)]
     fams = [("ideal", "pvt_gas", 100.0, 8000.0, "none"), ("ideal", "pvt_gas", 6000.0, 8000.0, "none"),
             ("single", "synth_z:0.0002", 1000.0, 8000.0, "none"), ("single", "synth_z:0.0", 4000.0, 8000.0, "none"),
-            ("single", "synth_z:0.0002", 3000.0, 8000.0, "stepdown")]
+            ("single", "synth_z:0.0002", 3000.0, 8000.0, "stepdown"), ("single", "synth_z:0.0002", 7992.0, 8000.0, "none")]
     if not quick:
         fams += [("single", "synth_z:0.0005", 7000.0, 8000.0, "none"), ("single", "synth_z:0.0002", 2000.0, 9000.0, "updown"),
                  ("ideal", "pvt_gas", 7900.0, 8000.0, "none"), ("single", "pvt_gas", 1000.0, 8000.0, "none"),
